@@ -519,3 +519,14 @@ func retVal(ret *ssa.Return, i int) ssa.Value {
 }
 
 func retLast(ret *ssa.Return) ssa.Value { return retVal(ret, len(ret.Results)-1) }
+
+// fnBase: the function's declared name without type arguments.
+func fnBase(f *ssa.Function) string {
+	if f == nil {
+		return ""
+	}
+	if o := f.Origin(); o != nil {
+		return o.Name()
+	}
+	return f.Name()
+}
